@@ -205,18 +205,16 @@ def run(tier, seed):
             k = (ids[-1], o.get("scope"))
             if k not in picked:
                 picked[k] = h
+            if tier == "thorough":
+                k2 = (ids[-1], o.get("mkey"))
+                if k2 not in picked:
+                    picked[k2] = h
 
         seen, edges = c01.search(ftype, tier, st, sink, on=on)
         total += len(seen)
         chosen = {h: None for (par, h, k, new) in edges if new}
         for h in picked.values():
             chosen.setdefault(h, None)
-        if tier == "thorough":
-            trip = {}
-            for (par, h, k, new) in edges:
-                trip.setdefault((h[2][-1], k), h)
-            for h in trip.values():
-                chosen.setdefault(h, None)
         edges_all += list(chosen)
         st.bump(f"edited_transitions{ftype}", len(chosen))
     st.states = total
